@@ -121,9 +121,11 @@ structure BoundOK (b : Bound) : Prop where
 theorem VS_globalOK {K : Kind} {s : Schema} (h : VS K s) : BoundOK (globalOf s) := by
   cases h with
   | mi st l g h0 h1 h2 =>
-    refine ⟨?_, ?_, ?_, ?_, ?_, ?_⟩ <;> simp only [globalOf, maxInt32] at * <;> omega
+    refine ⟨?_, ?_, ?_, ?_, ?_, ?_⟩ <;>
+      simp only [globalOf, Schema.globalMax, Schema.globalQps, Schema.globalBurst, maxInt32] at * <;> omega
   | tb st q b gq gb h0 h1 h2 h3 h4 h5 =>
-    refine ⟨?_, ?_, ?_, ?_, ?_, ?_⟩ <;> simp only [globalOf, maxInt32] at * <;> omega
+    refine ⟨?_, ?_, ?_, ?_, ?_, ?_⟩ <;>
+      simp only [globalOf, Schema.globalMax, Schema.globalQps, Schema.globalBurst, maxInt32] at * <;> omega
 
 /-! ## bounds -/
 
@@ -164,5 +166,763 @@ theorem bound_itemType (s : Schema) (i : Item) : itemType (boundByGlobalLimit s 
   simp only [itemType, boundByGlobalLimit, Option.isSome_map]
 
 theorem bound_strategy (s : Schema) (i : Item) : (boundByGlobalLimit s i).strategy = i.strategy := rfl
+
+/-! ## the wrappers -/
+
+theorem MIW_resize_avail (w : MIW) (n s : Int) (h : w.unavail = false) (hin : w.inner = .mi s)
+    (hn0 : 0 ≤ n) (hn1 : n ≤ maxInt32) :
+    (w.resize n).1 = { w with reserve := miReserve n, max := n, inner := .mi (miReserve n) } := by
+  have hr := miReserve_range hn0
+  simp only [MIW.resize, toI32_id hn0 hn1, h, Bool.not_false, if_true, hin, resize_mi,
+    toU32_id hr.1 (by omega : miReserve n ≤ maxInt32)]
+
+theorem MIW_resize_unavail (w : MIW) (n : Int) (h : w.unavail = true) (hn0 : 0 ≤ n) (hn1 : n ≤ maxInt32) :
+    (w.resize n).1 = { w with reserve := miReserve n, max := n } := by
+  simp [MIW.resize, toI32_id hn0 hn1, h]
+
+theorem TBW_resize_avail (w : TBW) (q b q0 u0 : Int) (h : w.unavail = false) (hin : w.inner = .tb q0 u0) :
+    ∃ w', (w.resize q b).1 = w' ∧ w'.inner = .tb q b ∧ w'.qps = q ∧ w'.burst = b ∧ w'.unavail = false := by
+  refine ⟨_, rfl, ?_, ?_, ?_, ?_⟩ <;> simp [TBW.resize, h, hin]
+
+theorem TBW_resize_unavail (w : TBW) (q b : Int) (h : w.unavail = true) :
+    ∃ w', (w.resize q b).1 = w' ∧ w'.inner = w.inner ∧ w'.qps = q ∧ w'.burst = b ∧ w'.unavail = true := by
+  refine ⟨_, rfl, ?_, ?_, ?_, ?_⟩ <;> simp [TBW.resize, h]
+
+/-- wrapper invariant relative to the applied item `ap` and the outage bound `ob` -/
+def GInv (g : GFC) (ap : Item) (ob : Bound) : Prop :=
+  match g with
+  | .empty l => l = limOfItem ap
+  | .miw w => ∃ A sz, ap.mi = some A ∧ w.max = A ∧ 0 ≤ w.reserve ∧ w.reserve ≤ A ∧ w.inner = .mi sz ∧ 0 ≤ sz ∧
+      (w.unavail = false → sz ≤ A) ∧ (w.unavail = true → sz ≤ ob.mi)
+  | .tbw w => ∃ t q u, ap.mi = none ∧ ap.tb = some t ∧ w.qps = t.qps ∧ w.burst = t.burst ∧ w.inner = .tb q u ∧
+      0 ≤ q ∧ 0 ≤ u ∧ (w.unavail = false → q ≤ t.qps ∧ u ≤ t.burst) ∧ (w.unavail = true → q ≤ ob.qps ∧ u ≤ ob.burst)
+
+theorem GInv_mono {g : GFC} {ap : Item} {ob ob' : Bound} (h : GInv g ap ob) (hle : BLe ob ob') : GInv g ap ob' := by
+  obtain ⟨h1, h2, h3⟩ := hle
+  cases g with
+  | empty l => exact h
+  | miw w =>
+    obtain ⟨A, sz, a1, a2, a3, a4, a5, a6, a7, a8⟩ := h
+    exact ⟨A, sz, a1, a2, a3, a4, a5, a6, a7, fun hu => by have := a8 hu; omega⟩
+  | tbw w =>
+    obtain ⟨t, q, u, a1, a2, a3, a4, a5, a6, a7, a8, a9⟩ := h
+    exact ⟨t, q, u, a1, a2, a3, a4, a5, a6, a7, a8, fun hu => by have := a9 hu; omega⟩
+
+/-- a freshly built wrapper (`remoteWrapper.newFlowControl`) from a bounded item of type `K` -/
+theorem newGFC_inv {K : Kind} {ap : Item} {gs : Bound} (ob : Bound) (hK : K = .mi ∨ K = .tb) (hT : itemType ap = K)
+    (hle : ItemLe ap gs) (hgs : BoundOK gs) :
+    ∃ g, newGFC ap = .ok g ∧ GInv g ap ob ∧ g.unavail = false ∧ g.inner.kind = K := by
+  obtain ⟨st, mi, tb⟩ := ap
+  cases mi with
+  | some A =>
+    have hA := hle.mi A rfl
+    have hA1 : A ≤ maxInt32 := by have := hgs.mi1; omega
+    have hT' : K = .mi := by simp [itemType] at hT; exact hT.symm
+    subst hT'
+    by_cases hs : st = .count
+    · subst hs
+      refine ⟨.miw { inner := .mi (miReserve A), max := A, reserve := miReserve A }, ?_, ?_, rfl, rfl⟩
+      · have hres := MIW_resize_avail ({ inner := .mi A, max := A } : MIW) A A rfl rfl hA.1 hA1
+        simp only [newGFC, toSchema, newLim, guessType, Option.isSome_some, Bool.true_or, Bool.false_eq_true, if_false,
+          if_true, toU32_id hA.1 hA1, bind, Except.bind, newCounter, ne_eq, not_true_eq_false, Lim.kind, hres]
+      · have hr := miReserve_range hA.1
+        exact ⟨A, miReserve A, rfl, rfl, hr.1, hr.2, rfl, hr.1, fun _ => hr.2, fun h => by simp at h⟩
+    · refine ⟨.empty (.mi A), ?_, rfl, rfl, rfl⟩
+      simp [newGFC, toSchema, newLim, guessType, toU32_id hA.1 hA1, bind, Except.bind, newCounter, hs]
+  | none =>
+    cases tb with
+    | none => simp [itemType] at hT; rcases hK with h | h <;> simp [← hT] at h
+    | some t =>
+      have ht := hle.tb t rfl
+      have hq1 : t.qps ≤ maxInt32 := by have := hgs.q1; omega
+      have hb1 : t.burst ≤ maxInt32 := by have := hgs.b1; omega
+      have hT' : K = .tb := by simp [itemType] at hT; exact hT.symm
+      subst hT'
+      by_cases hs : st = .count
+      · subst hs
+        obtain ⟨w', hw, h1, h2, h3, h4⟩ :=
+          TBW_resize_avail ({ inner := .tb t.qps t.burst } : TBW) t.qps t.burst t.qps t.burst rfl rfl
+        refine ⟨.tbw w', ?_, ?_, h4, ?_⟩
+        · simp only [newGFC, toSchema, newLim, guessType, Option.isSome_some, Option.isSome_none, Bool.or_self,
+            Bool.true_or, Bool.false_eq_true, if_false, if_true, toU32_id ht.1 hq1, toU32_id ht.2.2.1 hb1, bind,
+            Except.bind, newCounter, ne_eq, not_true_eq_false, Lim.kind, hw]
+        · exact ⟨t, t.qps, t.burst, rfl, rfl, h2, h3, h1, ht.1, ht.2.2.1, fun _ => ⟨Int.le_refl _, Int.le_refl _⟩,
+            fun h => by rw [h4] at h; cases h⟩
+        · simp [GFC.inner, h1, Lim.kind]
+      · refine ⟨.empty (.tb t.qps t.burst), ?_, rfl, rfl, rfl⟩
+        simp [newGFC, toSchema, newLim, guessType, toU32_id ht.1 hq1, toU32_id ht.2.2.1 hb1, bind, Except.bind,
+          newCounter, hs]
+
+theorem GInv_avail {g : GFC} {ap : Item} {ob : Bound} (ob' : Bound) (h : GInv g ap ob) (hu : g.unavail = false) :
+    GInv g ap ob' := by
+  cases g with
+  | empty l => exact h
+  | miw w =>
+    obtain ⟨A, sz, a1, a2, a3, a4, a5, a6, a7, a8⟩ := h
+    exact ⟨A, sz, a1, a2, a3, a4, a5, a6, a7, fun h' => by simp [GFC.unavail] at hu; rw [hu] at h'; cases h'⟩
+  | tbw w =>
+    obtain ⟨t, q, u, a1, a2, a3, a4, a5, a6, a7, a8, a9⟩ := h
+    exact ⟨t, q, u, a1, a2, a3, a4, a5, a6, a7, a8, fun h' => by simp [GFC.unavail] at hu; rw [hu] at h'; cases h'⟩
+
+/-- the bound the remote limiter must respect after a step: see `Mon.next` -/
+def obAfter (ob gs : Bound) (unavail : Bool) : Bound := if unavail then ob.sup gs else gs
+
+theorem GInv_obAfter {g : GFC} {ap : Item} {ob : Bound} (gs : Bound) (h : GInv g ap ob) :
+    GInv g ap (obAfter ob gs g.unavail) := by
+  cases hu : g.unavail with
+  | false => exact GInv_avail _ h hu
+  | true => exact GInv_mono h (by simp only [obAfter, if_true]; exact BLe.sup_left ob gs)
+
+/-- the remote wrapper holds a limiter of the schema's type, built from an applied item within `gs` -/
+def RInv (K : Kind) (r : Remote) (gs ob : Bound) : Prop :=
+  ∃ i ap g, r.remoteConfig = some i ∧ r.appliedConfig = some ap ∧ r.fc = some g ∧ itemType ap = K ∧
+    ItemLe ap gs ∧ GInv g ap ob ∧ g.inner.kind = K
+
+theorem GInv_kind_mi {g : GFC} {ap : Item} {ob : Bound} (h : GInv g ap ob) (hk : g.inner.kind = .mi)
+    (_hap : itemType ap = .mi) :
+    (∃ x, g = .empty (.mi x)) ∨ (∃ w, g = .miw w) := by
+  cases g with
+  | empty l =>
+    cases l with
+    | mi x => exact Or.inl ⟨x, rfl⟩
+    | exempt _ => simp [GFC.inner, Lim.kind] at hk
+    | tb _ _ => simp [GFC.inner, Lim.kind] at hk
+  | miw w => exact Or.inr ⟨w, rfl⟩
+  | tbw w =>
+    obtain ⟨t, q, u, a1, a2, a3, a4, a5, _⟩ := h
+    simp [GFC.inner, a5, Lim.kind] at hk
+
+theorem GInv_kind_tb {g : GFC} {ap : Item} {ob : Bound} (h : GInv g ap ob) (hk : g.inner.kind = .tb) :
+    (∃ q u, g = .empty (.tb q u)) ∨ (∃ w, g = .tbw w) := by
+  cases g with
+  | empty l =>
+    cases l with
+    | tb q u => exact Or.inl ⟨q, u, rfl⟩
+    | exempt _ => simp [GFC.inner, Lim.kind] at hk
+    | mi _ => simp [GFC.inner, Lim.kind] at hk
+  | tbw w => exact Or.inr ⟨w, rfl⟩
+  | miw w =>
+    obtain ⟨A, sz, a1, a2, a3, a4, a5, _⟩ := h
+    simp [GFC.inner, a5, Lim.kind] at hk
+
+/-- `remoteWrapper.Sync` with an item of the schema's type (max-in-flight) -/
+theorem remoteSync_mi {r : Remote} {s : Schema} {i : Item} {gs ob : Bound} (hs : VS .mi s)
+    (hi : itemType i = .mi) (hr : r = {} ∨ RInv .mi r gs ob) :
+    ∃ r' g', remoteSync r s i = .ok r' ∧ r'.fc = some g' ∧ r'.appliedConfig = some (boundByGlobalLimit s i) ∧
+      RInv .mi r' (globalOf s) (obAfter ob (globalOf s) g'.unavail) := by
+  have hgs := VS_globalOK hs
+  have hap := bound_itemLe s i hgs
+  have hapT : itemType (boundByGlobalLimit s i) = .mi := by rw [bound_itemType]; exact hi
+  -- a freshly built wrapper
+  have fresh : ∀ ob0, ∃ g', newGFC (boundByGlobalLimit s i) = .ok g' ∧
+      RInv .mi { remoteConfig := some i, appliedConfig := some (boundByGlobalLimit s i), fc := some g' } (globalOf s)
+        (obAfter ob0 (globalOf s) g'.unavail) := by
+    intro ob0
+    obtain ⟨g', h1, h2, h3, h4⟩ := newGFC_inv (obAfter ob0 (globalOf s) false) (Or.inl rfl) hapT hap hgs
+    exact ⟨g', h1, i, _, g', rfl, rfl, rfl, hapT, hap, by rw [h3]; exact h2, h4⟩
+  unfold remoteSync
+  simp only []
+  by_cases hearly : some i = r.remoteConfig ∧ some (boundByGlobalLimit s i) = r.appliedConfig
+  · rw [if_pos hearly]
+    rcases hr with rfl | ⟨i0, ap0, g, h1, h2, h3, h4, h5, h6, h7⟩
+    · simp at hearly
+    · have e2 : ap0 = boundByGlobalLimit s i := by have := hearly.2; rw [h2] at this; exact (Option.some.inj this).symm
+      subst e2
+      exact ⟨r, g, rfl, h3, h2, i0, _, g, h1, h2, h3, h4, hap, GInv_obAfter _ h6, h7⟩
+  · rw [if_neg hearly]
+    rcases hr with rfl | ⟨i0, ap0, g, h1, h2, h3, h4, h5, h6, h7⟩
+    · obtain ⟨g', hg, hR⟩ := fresh ob
+      refine ⟨_, g', ?_, rfl, rfl, hR⟩
+      simp [hg, bind, Except.bind, pure, Except.pure]
+    · rw [h3]
+      simp only []
+      by_cases hmis : g.inner.kind ≠ itemType i ∨ r.strategy ≠ i.strategy
+      · rw [if_pos hmis]
+        obtain ⟨g', hg, hR⟩ := fresh ob
+        refine ⟨_, g', ?_, rfl, rfl, hR⟩
+        simp [hg, bind, Except.bind, pure, Except.pure]
+      · rw [if_neg hmis]
+        -- resize path: the item and the wrapper are max-in-flight
+        obtain ⟨ist, imi, itb⟩ := i
+        cases imi with
+        | none => simp [itemType] at hi; cases itb <;> simp at hi
+        | some v =>
+          have hb := bound_range v (globalOf s).mi hgs.mi0
+          have hb1 : bound v (globalOf s).mi ≤ maxInt32 := by have := hgs.mi1; omega
+          have hbm : (boundByGlobalLimit s { strategy := ist, mi := some v, tb := itb }).mi
+              = some (bound v (globalOf s).mi) := by
+            simp [boundByGlobalLimit, globalOf]
+          rw [hbm, h7]
+          simp only [toU32_id hb.1 hb1]
+          rcases GInv_kind_mi h6 h7 h4 with ⟨x, rfl⟩ | ⟨w, rfl⟩
+          · refine ⟨_, _, rfl, rfl, rfl, _, _, _, rfl, rfl, rfl, hapT, hap, ?_, ?_⟩
+            · simp only [GFC.resize, resize_mi, GInv, limOfItem, hbm]
+            · simp [GFC.resize, GFC.inner, Lim.kind]
+          · obtain ⟨A, sz, a1, a2, a3, a4, a5, a6, a7, a8⟩ := h6
+            have hr' := miReserve_range hb.1
+            cases hu : w.unavail with
+            | false =>
+              have hres := MIW_resize_avail w _ sz hu a5 hb.1 hb1
+              refine ⟨_, _, rfl, rfl, rfl, _, _, _, rfl, rfl, rfl, hapT, hap, ?_, ?_⟩
+              · simp only [GFC.resize, hres, GInv]
+                exact ⟨_, miReserve (bound v (globalOf s).mi), hbm, rfl, hr'.1, hr'.2, rfl, hr'.1, fun _ => hr'.2,
+                  fun h => by rw [hu] at h; cases h⟩
+              · simp [GFC.resize, hres, GFC.inner, Lim.kind]
+            | true =>
+              have hres := MIW_resize_unavail w _ hu hb.1 hb1
+              have hob : obAfter ob (globalOf s) (GFC.miw (w.resize (bound v (globalOf s).mi)).1).unavail
+                  = ob.sup (globalOf s) := by simp [hres, GFC.unavail, hu, obAfter]
+              refine ⟨_, _, rfl, rfl, rfl, _, _, _, rfl, rfl, rfl, hapT, hap, ?_, ?_⟩
+              · simp only [GFC.resize]
+                rw [hob]
+                simp only [hres, GInv]
+                refine ⟨_, sz, hbm, rfl, hr'.1, hr'.2, a5, a6, fun h => (by rw [hu] at h; cases h), fun _ => ?_⟩
+                have := a8 hu
+                have := (BLe.sup_left ob (globalOf s)).1
+                omega
+              · simp [GFC.resize, hres, GFC.inner, a5, Lim.kind]
+
+/-- `remoteWrapper.Sync` with an item of the schema's type (token bucket) -/
+theorem remoteSync_tb {r : Remote} {s : Schema} {i : Item} {gs ob : Bound} (hs : VS .tb s)
+    (hi : itemType i = .tb) (hr : r = {} ∨ RInv .tb r gs ob) :
+    ∃ r' g', remoteSync r s i = .ok r' ∧ r'.fc = some g' ∧ r'.appliedConfig = some (boundByGlobalLimit s i) ∧
+      RInv .tb r' (globalOf s) (obAfter ob (globalOf s) g'.unavail) := by
+  have hgs := VS_globalOK hs
+  have hap := bound_itemLe s i hgs
+  have hapT : itemType (boundByGlobalLimit s i) = .tb := by rw [bound_itemType]; exact hi
+  have fresh : ∀ ob0, ∃ g', newGFC (boundByGlobalLimit s i) = .ok g' ∧
+      RInv .tb { remoteConfig := some i, appliedConfig := some (boundByGlobalLimit s i), fc := some g' } (globalOf s)
+        (obAfter ob0 (globalOf s) g'.unavail) := by
+    intro ob0
+    obtain ⟨g', h1, h2, h3, h4⟩ := newGFC_inv (obAfter ob0 (globalOf s) false) (Or.inr rfl) hapT hap hgs
+    exact ⟨g', h1, i, _, g', rfl, rfl, rfl, hapT, hap, by rw [h3]; exact h2, h4⟩
+  unfold remoteSync
+  simp only []
+  by_cases hearly : some i = r.remoteConfig ∧ some (boundByGlobalLimit s i) = r.appliedConfig
+  · rw [if_pos hearly]
+    rcases hr with rfl | ⟨i0, ap0, g, h1, h2, h3, h4, h5, h6, h7⟩
+    · simp at hearly
+    · have e2 : ap0 = boundByGlobalLimit s i := by have := hearly.2; rw [h2] at this; exact (Option.some.inj this).symm
+      subst e2
+      exact ⟨r, g, rfl, h3, h2, i0, _, g, h1, h2, h3, h4, hap, GInv_obAfter _ h6, h7⟩
+  · rw [if_neg hearly]
+    rcases hr with rfl | ⟨i0, ap0, g, h1, h2, h3, h4, h5, h6, h7⟩
+    · obtain ⟨g', hg, hR⟩ := fresh ob
+      refine ⟨_, g', ?_, rfl, rfl, hR⟩
+      simp [hg, bind, Except.bind, pure, Except.pure]
+    · rw [h3]
+      simp only []
+      by_cases hmis : g.inner.kind ≠ itemType i ∨ r.strategy ≠ i.strategy
+      · rw [if_pos hmis]
+        obtain ⟨g', hg, hR⟩ := fresh ob
+        refine ⟨_, g', ?_, rfl, rfl, hR⟩
+        simp [hg, bind, Except.bind, pure, Except.pure]
+      · rw [if_neg hmis]
+        obtain ⟨ist, imi, itb⟩ := i
+        cases imi with
+        | some v => simp [itemType] at hi
+        | none =>
+        cases itb with
+        | none => simp [itemType] at hi
+        | some t =>
+          have hq := bound_range t.qps (globalOf s).qps hgs.q0
+          have hq1 : bound t.qps (globalOf s).qps ≤ maxInt32 := by have := hgs.q1; omega
+          have hb := bound_range t.burst (globalOf s).burst hgs.b0
+          have hb1 : bound t.burst (globalOf s).burst ≤ maxInt32 := by have := hgs.b1; omega
+          have hbt : (boundByGlobalLimit s { strategy := ist, mi := none, tb := some t }).tb
+              = some ⟨bound t.qps (globalOf s).qps, bound t.burst (globalOf s).burst⟩ := by
+            simp [boundByGlobalLimit, globalOf]
+          have hbm : (boundByGlobalLimit s { strategy := ist, mi := none, tb := some t }).mi = none := by
+            simp [boundByGlobalLimit]
+          rw [hbt, hbm, h7]
+          simp only [toU32_id hq.1 hq1, toU32_id hb.1 hb1]
+          rcases GInv_kind_tb h6 h7 with ⟨q0, u0, rfl⟩ | ⟨w, rfl⟩
+          · refine ⟨_, _, rfl, rfl, rfl, _, _, _, rfl, rfl, rfl, hapT, hap, ?_, ?_⟩
+            · simp only [GFC.resize, resize_tb, GInv, limOfItem, hbm, hbt]
+            · simp [GFC.resize, GFC.inner, Lim.kind]
+          · obtain ⟨t0, q0, u0, a1, a2, a3, a4, a5, a6, a7, a8, a9⟩ := h6
+            cases hu : w.unavail with
+            | false =>
+              obtain ⟨w', hw, e1, e2, e3, e4⟩ := TBW_resize_avail w (bound t.qps (globalOf s).qps)
+                (bound t.burst (globalOf s).burst) q0 u0 hu a5
+              refine ⟨_, _, rfl, rfl, rfl, _, _, _, rfl, rfl, rfl, hapT, hap, ?_, ?_⟩
+              · simp only [GFC.resize, hw, GInv]
+                exact ⟨_, _, _, hbm, hbt, e2, e3, e1, hq.1, hb.1, fun _ => ⟨Int.le_refl _, Int.le_refl _⟩,
+                  fun h => (by rw [e4] at h; cases h)⟩
+              · simp [GFC.resize, hw, GFC.inner, e1, Lim.kind]
+            | true =>
+              obtain ⟨w', hw, e1, e2, e3, e4⟩ := TBW_resize_unavail w (bound t.qps (globalOf s).qps)
+                (bound t.burst (globalOf s).burst) hu
+              have hob : obAfter ob (globalOf s) (GFC.tbw w').unavail = ob.sup (globalOf s) := by
+                simp [GFC.unavail, e4, obAfter]
+              refine ⟨_, _, rfl, rfl, rfl, _, _, _, rfl, rfl, rfl, hapT, hap, ?_, ?_⟩
+              · simp only [GFC.resize, hw]
+                rw [hob]
+                simp only [GInv]
+                refine ⟨_, q0, u0, hbm, hbt, e2, e3, (by rw [e1, a5]), a6, a7,
+                  fun h => (by rw [e4] at h; cases h), fun _ => ?_⟩
+                have := a9 hu
+                have h1 := (BLe.sup_left ob (globalOf s)).2.1
+                have h2 := (BLe.sup_left ob (globalOf s)).2.2
+                omega
+              · simp [GFC.resize, hw, GFC.inner, e1, a5, Lim.kind]
+
+theorem remoteSync_inv {K : Kind} {r : Remote} {s : Schema} {i : Item} {gs ob : Bound} (hs : VS K s)
+    (hi : itemType i = K) (hr : r = {} ∨ RInv K r gs ob) :
+    ∃ r' g', remoteSync r s i = .ok r' ∧ r'.fc = some g' ∧ r'.appliedConfig = some (boundByGlobalLimit s i) ∧
+      RInv K r' (globalOf s) (obAfter ob (globalOf s) g'.unavail) := by
+  cases hs with
+  | mi st l g h0 h1 h2 => exact remoteSync_mi (VS.mi st l g h0 h1 h2) hi hr
+  | tb st q b gq gb h0 h1 h2 h3 h4 h5 => exact remoteSync_tb (VS.tb st q b gq gb h0 h1 h2 h3 h4 h5) hi hr
+
+/-! ## acquire results -/
+
+theorem nonAccept_range {limit wmax : Int} (h : 0 ≤ wmax) :
+    0 ≤ (if (if limit > wmax then wmax else limit) < 0 then 0 else (if limit > wmax then wmax else limit)) ∧
+    (if (if limit > wmax then wmax else limit) < 0 then 0 else (if limit > wmax then wmax else limit)) ≤ wmax := by
+  by_cases h1 : limit > wmax
+  · simp only [h1, if_true]; constructor <;> (split <;> omega)
+  · simp only [h1, if_false]; constructor <;> (split <;> omega)
+
+/-- `maxInflightWrapper.SetLimit` keeps the wrapper within the bound, and the judge accepts the transition -/
+theorem miw_setLimit_inv {w : MIW} {ap : Item} {gs ob : Bound} {s : Schema} (hs : VS .mi s)
+    (hg : GInv (.miw w) ap ob) (hle : ItemLe ap gs) (hgs : BoundOK gs) (obs : Int) (r : Reply) :
+    ∃ w', w.setLimit s obs r = .ok w' ∧ GInv (.miw w') ap (obAfter ob gs w'.unavail) ∧ w'.inner.kind = .mi ∧
+      judgeMISet w.lastAcquireTime w.reserve w.max w.unavail (some w.inner) s.mi obs r (some w'.inner) w'.unavail = [] := by
+  have hg0 := hg
+  obtain ⟨A, sz, a1, a2, a3, a4, a5, a6, a7, a8⟩ := hg
+  have hA := hle.mi A a1
+  have hA1 : A ≤ maxInt32 := by have := hgs.mi1; omega
+  have hsup := (BLe.sup_right ob gs).1
+  have hkind : w.inner.kind = .mi := by rw [a5]; rfl
+  have same : GInv (.miw w) ap (obAfter ob gs w.unavail) := GInv_obAfter gs hg0
+  cases hs with
+  | mi st l g h0 h1 h2 =>
+  unfold MIW.setLimit
+  by_cases hst : r.rt > 0 ∧ r.rt ≤ w.lastAcquireTime
+  · rw [if_pos hst]
+    refine ⟨w, rfl, same, hkind, ?_⟩
+    simp [judgeMISet, hst.1, hst.2]
+  · rw [if_neg hst]
+    have hfresh : (!(decide (r.rt > 0) && decide (r.rt ≤ w.lastAcquireTime))) = true := by
+      simp only [Bool.not_eq_true', Bool.and_eq_false_iff, decide_eq_false_iff_not]
+      by_cases h : r.rt > 0
+      · exact Or.inr (fun h' => hst ⟨h, h'⟩)
+      · exact Or.inl h
+    cases he : r.err with
+    | tooOld =>
+      refine ⟨w, rfl, same, hkind, ?_⟩
+      simp [judgeMISet, he]
+    | other =>
+      cases hu : w.unavail with
+      | true =>
+        refine ⟨w, by simp, same, hkind, ?_⟩
+        simp [judgeMISet, he, hu]
+      | false =>
+        have hf := miFallback_range (obs := obs) h0 (by omega : 0 ≤ w.max)
+        have hf1 : miFallback obs l w.max ≤ maxInt32 := by omega
+        refine ⟨{ w with inner := .mi (miFallback obs l w.max), unavail := true }, ?_, ?_, rfl, ?_⟩
+        · simp only [Bool.not_false, if_true, a5, resize_mi]
+          have : (if (if obs < l then l else obs) > w.max then w.max else if obs < l then l else obs)
+              = miFallback obs l w.max := rfl
+          rw [this, toU32_id hf.1 hf1]
+        · simp only [GInv, obAfter, if_true]
+          exact ⟨A, _, a1, a2, a3, a4, rfl, hf.1, fun h => (by cases h), fun _ => by omega⟩
+        · simp [judgeMISet, he, hfresh]
+    | none =>
+      cases ha : r.accept with
+      | true =>
+        have hc := clampAccept_range (limit := r.limit) a3 (by omega : w.reserve ≤ w.max)
+        have hc1 : clampAccept r.limit w.reserve w.max ≤ maxInt32 := by omega
+        refine ⟨{ w with unavail := false, overLimited := 0, acquired := clampAccept r.limit w.reserve w.max,
+                         inner := .mi (clampAccept r.limit w.reserve w.max), lastAcquireTime := r.rt }, ?_, ?_, rfl, ?_⟩
+        · simp only [if_true, a5, resize_mi]
+          have : (if (if r.limit < w.reserve then w.reserve else r.limit) > w.max then w.max
+              else if r.limit < w.reserve then w.reserve else r.limit) = clampAccept r.limit w.reserve w.max := rfl
+          rw [this, toU32_id hc.1 hc1]
+        · simp only [GInv, obAfter]
+          exact ⟨A, _, a1, a2, a3, a4, rfl, hc.1, fun _ => by omega, fun h => (by cases h)⟩
+        · simp [judgeMISet, he, ha, hfresh]
+      | false =>
+        have hn := nonAccept_range (limit := r.limit) (by omega : 0 ≤ w.max)
+        refine ⟨{ w with overLimited := 1,
+                         acquired := (if (if r.limit > w.max then w.max else r.limit) < 0 then 0 else (if r.limit > w.max then w.max else r.limit)),
+                         inner := .mi (if (if r.limit > w.max then w.max else r.limit) < 0 then 0 else (if r.limit > w.max then w.max else r.limit)),
+                         lastAcquireTime := r.rt }, ?_, ?_, rfl, ?_⟩
+        · simp only [Bool.false_eq_true, if_false, a5, resize_mi]
+          rw [toU32_id hn.1 (by omega)]
+        · simp only [GInv]
+          refine ⟨A, _, a1, a2, a3, a4, rfl, hn.1, fun _ => by omega, fun hu => ?_⟩
+          simp only [obAfter, hu, if_true]
+          omega
+        · simp [judgeMISet, he, ha, hfresh]
+
+/-- the degraded qps `tokenBucketWrapper.SetLimit` computes is the spec's and lies in `[0, m.qps]` -/
+theorem tbFallback_eq {mt : Meter} {ql wq : Int} (hd : 0 < mt.rateDen) (hq0 : 0 < ql) (hq1 : ql ≤ maxInt32)
+    (hw0 : 0 ≤ wq) (hw1 : wq ≤ maxInt32) :
+    tbDegradedQps mt ql wq = tbFallbackQps mt ql wq ∧
+    0 ≤ tbFallbackQps mt ql wq ∧ tbFallbackQps mt ql wq ≤ wq := by
+  simp only [tbDegradedQps, tbFallbackQps, rateToU32, toU32_id (by omega : 0 ≤ ql) hq1]
+  by_cases h1 : mt.rateNum < ql * mt.rateDen
+  · simp only [h1, if_true]
+    refine ⟨trivial, ?_, ?_⟩ <;> (split <;> omega)
+  · simp only [h1, if_false]
+    by_cases h2 : mt.rateNum > wq * mt.rateDen
+    · simp only [h2, if_true]; exact ⟨trivial, hw0, Int.le_refl _⟩
+    · simp only [h2, if_false]
+      have hb := tdiv_between hd (by omega : 0 ≤ ql) h1 h2
+      rw [toU32_id (by omega) (by omega)]
+      exact ⟨rfl, by omega, hb.2⟩
+
+@[simp] theorem noteRequest_inner (w : TBW) (r : Reply) : (w.noteRequest r).inner = w.inner := by
+  simp only [TBW.noteRequest]; split <;> rfl
+@[simp] theorem noteRequest_unavail (w : TBW) (r : Reply) : (w.noteRequest r).unavail = w.unavail := by
+  simp only [TBW.noteRequest]; split <;> rfl
+@[simp] theorem noteRequest_qps (w : TBW) (r : Reply) : (w.noteRequest r).qps = w.qps := by
+  simp only [TBW.noteRequest]; split <;> rfl
+@[simp] theorem noteRequest_burst (w : TBW) (r : Reply) : (w.noteRequest r).burst = w.burst := by
+  simp only [TBW.noteRequest]; split <;> rfl
+
+/-- `tokenBucketWrapper.SetLimit` keeps the wrapper within the bound, and the judge accepts the transition -/
+theorem tbw_setLimit_inv {w : TBW} {ap : Item} {gs ob : Bound} {s : Schema} (hs : VS .tb s)
+    (hg : GInv (.tbw w) ap ob) (hle : ItemLe ap gs) (hgs : BoundOK gs) (mt : Meter) (hd : 0 < mt.rateDen) (r : Reply) :
+    ∃ w' b, w.setLimit s mt r = .ok (w', b) ∧ GInv (.tbw w') ap (obAfter ob gs w'.unavail) ∧ w'.inner.kind = .tb ∧
+      judgeTBSet w.qps w.burst w.unavail (some w.inner) s.tb mt r (some w'.inner) w'.unavail = [] := by
+  obtain ⟨t, q, u, a1, a2, a3, a4, a5, a6, a7, a8, a9⟩ := hg
+  have ht := hle.tb t a2
+  have hq1 : t.qps ≤ maxInt32 := by have := hgs.q1; omega
+  have hb1 : t.burst ≤ maxInt32 := by have := hgs.b1; omega
+  have hsq := (BLe.sup_right ob gs).2.1
+  have hsb := (BLe.sup_right ob gs).2.2
+  cases hs with
+  | tb st ql bl gq gb h0 h1 h2 h3 h4 h5 =>
+  -- any wrapper with the same limiter, flags and (qps, burst) satisfies the invariant again
+  have keep : ∀ w1 : TBW, w1.inner = w.inner → w1.unavail = w.unavail → w1.qps = w.qps → w1.burst = w.burst →
+      GInv (.tbw w1) ap (obAfter ob gs w1.unavail) ∧ w1.inner.kind = .tb := by
+    intro w1 e1 e2 e3 e4
+    refine ⟨⟨t, q, u, a1, a2, by rw [e3]; exact a3, by rw [e4]; exact a4, by rw [e1]; exact a5, a6, a7,
+      by rw [e2]; exact a8, ?_⟩, by rw [e1, a5]; rfl⟩
+    rw [e2]
+    intro hu
+    have := a9 hu
+    have := (BLe.sup_left ob gs).2.1
+    have := (BLe.sup_left ob gs).2.2
+    simp only [obAfter, hu, if_true]
+    omega
+  unfold TBW.setLimit
+  simp only []
+  cases he : r.err with
+  | tooOld =>
+    obtain ⟨k1, k2⟩ := keep (w.noteRequest r) (by simp) (by simp) (by simp) (by simp)
+    refine ⟨_, _, rfl, k1, k2, ?_⟩
+    simp [judgeTBSet, he]
+  | other =>
+    cases hu : w.unavail with
+    | true =>
+      obtain ⟨k1, k2⟩ := keep (w.noteRequest r) (by simp) (by simp) (by simp) (by simp)
+      refine ⟨_, _, (by simp only [noteRequest_unavail, hu, Bool.not_true, Bool.not_false, Bool.false_eq_true, if_true, if_false]; rfl), k1, k2, ?_⟩
+      simp [judgeTBSet, he, hu]
+    | false =>
+      obtain ⟨hq, hq0', hq1'⟩ := tbFallback_eq (mt := mt) (ql := ql) (wq := w.qps) hd h0 (by omega)
+        (by rw [a3]; exact ht.1) (by rw [a3]; exact hq1)
+      refine ⟨_, _, (by simp only [noteRequest_unavail, hu, Bool.not_true, Bool.not_false, Bool.false_eq_true, if_true, if_false]; rfl), ?_, ?_, ?_⟩
+      · simp only [TBW.degrade, noteRequest_inner, noteRequest_qps, noteRequest_burst, a5, resize_tb, hq, GInv, obAfter,
+          if_true]
+        refine ⟨t, _, _, a1, a2, a3, a4, rfl, hq0', ?_, fun h => (by cases h), fun _ => ?_⟩
+        · split <;> omega
+        · constructor
+          · omega
+          · split <;> omega
+      · simp [TBW.degrade, a5, Lim.kind]
+      · simp [judgeTBSet, he, TBW.degrade, a5, hq]
+  | none =>
+    cases ha : r.accept with
+    | false =>
+      obtain ⟨k1, k2⟩ := keep { w.noteRequest r with lastAcquireTime := r.rt } (by simp) (by simp) (by simp) (by simp)
+      refine ⟨_, _, (by simp only [Bool.false_eq_true, if_false]; rfl), k1, k2, ?_⟩
+      simp [judgeTBSet, he, ha]
+    | true =>
+      cases hu : w.unavail with
+      | false =>
+        obtain ⟨k1, k2⟩ := keep { (w.noteRequest r).recover.addTokens r.limit with lastAcquireTime := r.rt }
+          (by simp [TBW.addTokens, TBW.recover, hu]) (by simp [TBW.addTokens, TBW.recover, hu])
+          (by simp [TBW.addTokens, TBW.recover, hu]) (by simp [TBW.addTokens, TBW.recover, hu])
+        refine ⟨_, _, (by simp only [if_true]; rfl), k1, k2, ?_⟩
+        simp [judgeTBSet, he, ha, hu, TBW.addTokens, TBW.recover]
+      | true =>
+        refine ⟨_, _, (by simp only [if_true]; rfl), ?_, ?_, ?_⟩
+        · simp only [TBW.addTokens, TBW.recover, noteRequest_unavail, hu, if_true, noteRequest_inner, noteRequest_qps,
+            noteRequest_burst, a5, resize_tb, GInv, obAfter]
+          exact ⟨t, _, _, a1, a2, a3, a4, rfl, by rw [a3]; exact ht.1, by rw [a4]; exact ht.2.2.1,
+            fun _ => ⟨by rw [a3]; exact Int.le_refl _, by rw [a4]; exact Int.le_refl _⟩, fun h => (by cases h)⟩
+        · simp [TBW.addTokens, TBW.recover, hu, a5, Lim.kind]
+        · simp [judgeTBSet, he, ha, hu, TBW.addTokens, TBW.recover, a5]
+
+/-! ## readiness -/
+
+theorem failRunStart_false (t : Int) (rest : List (Bool × Int)) :
+    failRunStart ((false, t) :: rest) = some ((failRunStart rest).getD t) := by
+  simp only [failRunStart]; cases failRunStart rest <;> rfl
+
+theorem failRunStart_true (t : Int) (rest : List (Bool × Int)) : failRunStart ((true, t) :: rest) = none := rfl
+
+theorem specReady_true (t : Int) (rest : List (Bool × Int)) : specReady ((true, t) :: rest) = true := rfl
+
+theorem specReady_false (now : Int) (rest : List (Bool × Int)) :
+    specReady ((false, now) :: rest) =
+      (specReady rest && !decide (now > (failRunStart rest).getD now + serverHeartBeatTimeout)) := rfl
+
+theorem hbAfter_now (now : Int) : hbAfter (some now) now = false := by
+  simp [hbAfter, serverHeartBeatTimeout]; omega
+
+/-- a successful heartbeat: ready at once -/
+theorem hbStep_ok (h : HB) (now : Int) :
+    hbStep h true now = { lastState := true, ready := true, lastChange := if h.lastState then h.lastChange else some now } := by
+  obtain ⟨lc, ls, rd⟩ := h
+  cases ls <;> cases rd <;> simp [hbStep]
+
+/-- the first failed heartbeat after a success starts the run: nothing changes yet -/
+theorem hbStep_fail_first (h : HB) (now : Int) (hl : h.lastState = true) :
+    hbStep h false now = { lastState := false, ready := h.ready, lastChange := some now } := by
+  obtain ⟨lc, ls, rd⟩ := h
+  simp only at hl; subst hl
+  cases rd <;> simp [hbStep, hbAfter_now]
+
+/-- a further failed heartbeat: down iff the run started more than the time-out ago -/
+theorem hbStep_fail_next (h : HB) (now : Int) (hl : h.lastState = false) :
+    hbStep h false now = { h with ready := h.ready && !hbAfter h.lastChange now } := by
+  obtain ⟨lc, ls, rd⟩ := h
+  simp only at hl; subst hl
+  cases rd <;> simp [hbStep]
+  cases hbAfter lc now <;> simp
+
+/-- the heartbeat status mirrors the declarative readiness of the history -/
+def HBInv (hb : Option HB) (hist : List (Bool × Int)) : Prop :=
+  match hb with
+  | none => hist = []
+  | some h => (∃ x rest, hist = x :: rest ∧ h.lastState = x.1) ∧ h.ready = specReady hist ∧
+              (h.ready = true → h.lastState = false → h.lastChange = failRunStart hist)
+
+theorem hbStep_inv {hb : Option HB} {hist : List (Bool × Int)} (h : HBInv hb hist) (ok : Bool) (now : Int) :
+    HBInv (some (hbStep (hb.getD {}) ok now)) ((ok, now) :: hist) := by
+  cases ok with
+  | true =>
+    rw [hbStep_ok]
+    exact ⟨⟨_, _, rfl, rfl⟩, rfl, fun _ h => by cases h⟩
+  | false =>
+    cases hb with
+    | none =>
+      simp only [HBInv] at h
+      subst h
+      rw [Option.getD_none, hbStep_fail_next _ _ rfl]
+      exact ⟨⟨_, _, rfl, rfl⟩, rfl, fun h => by cases h⟩
+    | some hb =>
+      obtain ⟨⟨x, rest, rfl, hls⟩, hr, hc⟩ := h
+      obtain ⟨xs, xt⟩ := x
+      simp only at hls
+      simp only [Option.getD_some]
+      cases xs with
+      | true =>
+        rw [hbStep_fail_first _ _ hls]
+        have hrd : hb.ready = true := by rw [hr]; rfl
+        refine ⟨⟨_, _, rfl, rfl⟩, ?_, fun _ _ => ?_⟩
+        · rw [specReady_false, specReady_true, failRunStart_true]
+          simp [hrd, serverHeartBeatTimeout]; omega
+        · rw [failRunStart_false, failRunStart_true]; rfl
+      | false =>
+        rw [hbStep_fail_next _ _ hls]
+        refine ⟨⟨_, _, rfl, hls⟩, ?_, ?_⟩
+        · rw [specReady_false, ← hr]
+          cases hrd : hb.ready with
+          | false => simp
+          | true =>
+            have hc1 := hc hrd hls
+            rw [failRunStart_false] at hc1
+            simp [hc1, hbAfter, failRunStart_false]
+        · intro h1 _
+          simp only [Bool.and_eq_true] at h1
+          have hc1 := hc h1.1 hls
+          rw [failRunStart_false] at hc1 ⊢
+          rw [failRunStart_false]
+          simpa using hc1
+
+/-! ## the invariant -/
+
+theorem VS_kind {K : Kind} {s : Schema} (h : VS K s) : K = .mi ∨ K = .tb := by
+  cases h
+  · exact Or.inl rfl
+  · exact Or.inr rfl
+
+/-- the global-count wrapper of a state, if any -/
+def gfcOf (st : State) : Option GFC := st.cache.bind (fun c => c.remote.bind (·.fc))
+
+theorem observe_rlim (cfg : Cfg) (st : State) : (observe cfg st).rlim = (gfcOf st).map (·.inner) := by
+  simp only [observe, gfcOf]
+  cases h : (st.cache.bind fun c => c.remote.bind (·.fc)) with
+  | none => rfl
+  | some g => cases g <;> rfl
+
+theorem observe_unavail (cfg : Cfg) (st : State) : (observe cfg st).unavail = ((gfcOf st).map (·.unavail)).getD false := by
+  simp only [observe, gfcOf]
+  cases h : (st.cache.bind fun c => c.remote.bind (·.fc)) with
+  | none => rfl
+  | some g => cases g <;> rfl
+
+theorem observe_choice (cfg : Cfg) (st : State) : (observe cfg st).choice = load cfg st := by
+  simp only [observe]
+  cases h : (st.cache.bind fun c => c.remote.bind (·.fc)) with
+  | none => rfl
+  | some g => cases g <;> rfl
+
+theorem observe_ready (cfg : Cfg) (st : State) : (observe cfg st).ready = isReady st := by
+  simp only [observe]
+  cases h : (st.cache.bind fun c => c.remote.bind (·.fc)) with
+  | none => rfl
+  | some g => cases g <;> rfl
+
+theorem observe_lim (cfg : Cfg) (st : State) :
+    (observe cfg st).lim = (match load cfg st with
+      | .dflt => none
+      | .loc => st.cache.bind (·.loc.fc)
+      | .remote => (gfcOf st).map (·.inner)) := by
+  simp only [observe, gfcOf]
+  cases h : (st.cache.bind fun c => c.remote.bind (·.fc)) with
+  | none => rfl
+  | some g => cases g <;> rfl
+
+/-- the cache part of the invariant -/
+def CInv (K : Kind) (c : Option Cache) (m : Mon) : Prop :=
+  match c, m.schema with
+  | none, none => m.synced = false
+  | some c, some s => c.loc.config = s ∧ VS K s ∧ c.loc.fc = some (limOf s) ∧ m.synced = c.remote.isSome ∧
+      ∀ r, c.remote = some r → RInv K r m.gs m.ob
+  | _, _ => False
+
+structure Inv (K : Kind) (cfg : Cfg) (st : State) (m : Mon) : Prop where
+  meter : m.meter = st.meter
+  meterOK : 0 < st.meter.rateDen
+  shards : m.shards = st.shardCount
+  hb : HBInv st.hb m.hist
+  prev : m.prev = observe cfg st
+  gsOK : BoundOK m.gs
+  gsob : BLe m.gs m.ob
+  obgs : (observe cfg st).unavail = false → m.ob = m.gs
+  cache : CInv K st.cache m
+
+theorem inv_init (K : Kind) (cfg : Cfg) : Inv K cfg {} {} := by
+  refine ⟨rfl, by decide, rfl, rfl, ?_, ?_, BLe.refl _, fun _ => rfl, rfl⟩
+  · cases cfg with | mk rl cs => cases rl <;> rfl
+  · constructor <;> simp [maxInt32] <;> decide
+
+theorem isReady_spec {st : State} {m : Mon} (hs : m.shards = st.shardCount) (hb : HBInv st.hb m.hist) :
+    isReady st = (decide (m.shards ≠ 0) && specReady m.hist) := by
+  simp only [isReady, hs]
+  by_cases h0 : st.shardCount = 0
+  · simp [h0]
+  · simp only [h0, if_false, ne_eq, not_false_eq_true, decide_true, Bool.true_and]
+    cases h : st.hb with
+    | none => rw [h] at hb; simp only [HBInv] at hb; rw [hb]; rfl
+    | some x => rw [h] at hb; exact hb.2.1
+
+theorem GInv_leb {K : Kind} {g : GFC} {ap : Item} {gs ob : Bound} (hg : GInv g ap ob) (hle : ItemLe ap gs)
+    (hT : itemType ap = K) (hK : K = .mi ∨ K = .tb) (hob : g.unavail = false → ob = gs) :
+    Lim.leb g.inner ob = true := by
+  cases g with
+  | empty l =>
+    have : ob = gs := hob rfl
+    subst this
+    simp only [GInv] at hg
+    subst hg
+    obtain ⟨st, mi, tb⟩ := ap
+    cases mi with
+    | some A =>
+      have := hle.mi A rfl
+      simp [GFC.inner, limOfItem, Lim.leb, this.1, this.2]
+    | none =>
+      cases tb with
+      | none => simp [itemType] at hT; rcases hK with h | h <;> simp [← hT] at h
+      | some t =>
+        have := hle.tb t rfl
+        simp [GFC.inner, limOfItem, Lim.leb, this.1, this.2.1, this.2.2.1, this.2.2.2]
+  | miw w =>
+    obtain ⟨A, sz, a1, a2, a3, a4, a5, a6, a7, a8⟩ := hg
+    have hA := hle.mi A a1
+    simp only [GFC.inner, a5, Lim.leb, a6, decide_true, Bool.true_and, decide_eq_true_eq]
+    cases hu : w.unavail with
+    | false =>
+      have : ob = gs := hob hu
+      subst this
+      have := a7 hu
+      omega
+    | true => exact a8 hu
+  | tbw w =>
+    obtain ⟨t, q, u, a1, a2, a3, a4, a5, a6, a7, a8, a9⟩ := hg
+    have ht := hle.tb t a2
+    simp only [GFC.inner, a5, Lim.leb, a6, a7, decide_true, Bool.true_and, Bool.and_true, Bool.and_eq_true,
+      decide_eq_true_eq]
+    cases hu : w.unavail with
+    | false =>
+      have : ob = gs := hob hu
+      subst this
+      have := a8 hu
+      omega
+    | true => exact a9 hu
+
+
+theorem load_spec {K : Kind} {cfg : Cfg} {st : State} {m : Mon} (hi : Inv K cfg st m) :
+    load cfg st = expectedChoice cfg m := by
+  have hrd := isReady_spec hi.shards hi.hb
+  have hc := hi.cache
+  unfold CInv at hc
+  cases hcache : st.cache with
+  | none =>
+    cases hsch : m.schema with
+    | none => simp [load, expectedChoice, hcache, hsch]
+    | some s => rw [hcache, hsch] at hc; exact hc.elim
+  | some c =>
+    cases hsch : m.schema with
+    | none => rw [hcache, hsch] at hc; exact hc.elim
+    | some s =>
+      rw [hcache, hsch] at hc
+      obtain ⟨h1, h2, h3, h4, h5⟩ := hc
+      have hRp : (m.shards ≠ 0 ∧ specReady m.hist = true) ↔ (isReady st = true) := by rw [hrd]; simp
+      simp only [load, expectedChoice, hcache, hsch, h1, hRp, ← h4]
+      cases cfg.rateLimiter <;> cases s.strategy <;> cases cfg.hasCS <;> cases m.synced <;>
+        cases isReady st <;> simp
+
+theorem judgePost_ok {K : Kind} {cfg : Cfg} {st : State} {m : Mon} (hi : Inv K cfg st m) :
+    judgePost cfg m (observe cfg st) = [] := by
+  have hrd := isReady_spec hi.shards hi.hb
+  have hld := load_spec hi
+  have hc := hi.cache
+  unfold CInv at hc
+  unfold judgePost
+  rw [observe_ready, hrd, observe_choice, hld]
+  simp only [if_true, List.nil_append]
+  cases hsch : m.schema with
+  | none => rfl
+  | some s =>
+    cases hcache : st.cache with
+    | none => rw [hcache, hsch] at hc; exact hc.elim
+    | some c =>
+      rw [hcache, hsch] at hc
+      obtain ⟨h1, h2, h3, h4, h5⟩ := hc
+      have hK := VS_kind h2
+      simp only []
+      rw [observe_lim, observe_rlim, hld]
+      generalize expectedChoice cfg m = ch
+      cases hr : c.remote with
+      | none =>
+        have : gfcOf st = none := by simp [gfcOf, hcache, hr]
+        cases ch <;> simp [this, h4, hr, hcache, h3]
+      | some r =>
+        obtain ⟨i, ap, g, r1, r2, r3, r4, r5, r6, r7⟩ := h5 r hr
+        have hg : gfcOf st = some g := by simp [gfcOf, hcache, hr, r3]
+        have hob : g.unavail = false → m.ob = m.gs := by
+          intro hu
+          apply hi.obgs
+          rw [observe_unavail, hg]; simpa using hu
+        have hleb := GInv_leb r6 r5 r4 hK hob
+        cases ch <;> simp [hg, r7, VS_guess h2, hleb, hcache, h3]
 
 end KG.Lemmas.RemoteLimiter
